@@ -112,7 +112,7 @@ def hookF (hk : HK) (base : FCfg → Res) (x : FCfg) : Res :=
     match supF hk base x with
     | (y, some e) => (y, some e)
     | (y, none) =>
-      if o = .after then ({ y with fired := true }, some faultExc)
+      if o = .after then ({ y with arm := none, fired := true }, some faultExc)
       else if y.called = cc then (y, none) else (y, some .assertion)
 
 def enteredHK : SObj → Option HK
@@ -140,18 +140,20 @@ variable (N : Hook → FCfg → FCfg)
 def closeF (x : FCfg) : Res :=
   if x.l.c.closed then ok x else hookF .onClose (fun x => ok (x.updC onClose)) x
 
+def termBaseF (x : FCfg) : Res := closeF (x.updC releasePause)
+
 /-- `on_terminated` (base: release the pause, close) -/
-def terminatedF (x : FCfg) : Res :=
-  hookF .onTerminated (fun x => closeF (x.updC releasePause)) x
+def terminatedF (x : FCfg) : Res := hookF .onTerminated termBaseF x
 
 /-- ENTERED callbacks: the process's own `on_entered` → `on_running / on_waiting / on_finished / on_killed / on_excepted`
 (base: `_killing = None` for KILLED; the listeners are notified, the oracle is consulted) -/
-def enteredHooksF (x : FCfg) (s : SObj) : Res :=
-  hookOpt (enteredHK s) (fun x =>
-    let x := x.updC (fun c => enteredHooks c s)
-    ok (match (enteredNotif s).bind hookOfNotif with
-        | some h => N h x
-        | none => x)) x
+def enteredBaseF (s : SObj) (x : FCfg) : Res :=
+  let x := x.updC (fun c => enteredHooks c s)
+  ok (match (enteredNotif s).bind hookOfNotif with
+      | some h => N h x
+      | none => x)
+
+def enteredHooksF (x : FCfg) (s : SObj) : Res := hookOpt (enteredHK s) (enteredBaseF N s) x
 
 /-- `transition_failed` → `transition_to(EXCEPTED)` with the exit phase bypassed; an exception in there propagates -/
 def forceExceptedF (x : FCfg) (e : Exc) : Res :=
@@ -177,12 +179,13 @@ def exitPhaseF (x : FCfg) (s : SObj) : Res :=
 
 /-- ENTERING callbacks: the process's own `on_entering` → `on_run / on_wait / on_finish / on_kill / on_except` (base:
 resolve the future, which may fail), then the others -/
+def enteringBaseF (s : SObj) (x : FCfg) : Res :=
+  match enteringHooks x.l.c s with
+  | .error e => (x, some e)
+  | .ok c2 => ok (x.setC c2)
+
 def enteringF (x : FCfg) (s : SObj) : Res :=
-  bind (hookOpt (enteringHK s) (fun x =>
-      match enteringHooks x.l.c s with
-      | .error e => (x, some e)
-      | .ok c2 => ok (x.setC c2)) x) fun x =>
-  ok (N .entering x)
+  bind (hookOpt (enteringHK s) (enteringBaseF s) x) fun x => ok (N .entering x)
 
 /-- the `try` block of `transition_to` -/
 def tryTransitionF (x : FCfg) (s : SObj) : Res :=
@@ -210,9 +213,10 @@ def transitionToF (x : FCfg) (s : SObj) : Res :=
 
 /-- `_do_pause` without a next state: `on_pausing`, `on_paused` (base: `doPauseHooks`, listeners notified),
 `finally: self._pausing = None` -/
+def pausedBaseF (x : FCfg) : Res := ok (N .paused (x.updC doPauseHooks))
+
 def doPauseF (x : FCfg) : Res :=
-  let r := bind (hookF .onPausing ok x) fun x =>
-    hookF .onPaused (fun x => ok (N .paused (x.updC doPauseHooks))) x
+  let r := bind (hookF .onPausing ok x) fun x => hookF .onPaused (pausedBaseF N) x
   (r.1.updC (fun c => { c with pausing := none }), r.2)
 
 def retOf (r : Res) (v : RetV) : FCfg × RetV :=
@@ -237,10 +241,12 @@ def pauseF (x : FCfg) : FCfg × RetV :=
     else retOf (doPauseF N x) (.bool true)
 
 /-- `play()`: `on_playing` (base: resolve and drop the pause future, listeners notified) on a paused process -/
+def playingBaseF (x : FCfg) : Res := ok (N .played (x.updC (fun c => (play c).1)))
+
 def playF (x : FCfg) : FCfg × RetV :=
   match x.l.c.paused with
   | none => (x.updC (fun c => (play c).1), .bool true)
-  | some _ => retOf (hookF .onPlaying (fun x => ok (N .played (x.updC (fun c => (play c).1)))) x) (.bool true)
+  | some _ => retOf (hookF .onPlaying (playingBaseF N) x) (.bool true)
 
 def killF (x : FCfg) : FCfg × RetV :=
   let c := x.l.c
